@@ -10,8 +10,13 @@ import math
 import time
 from fractions import Fraction
 
+import sys
+
 import numpy as np
 import z3
+
+if hasattr(sys, 'set_int_max_str_digits'):
+    sys.set_int_max_str_digits(0)
 
 
 class Abort(BaseException):
@@ -66,6 +71,9 @@ class Ctx:
         self.trace = []        # human-readable decisions (for samples)
         self.findings = []
         self.notes = {}
+        # defining constraints of sqrt variables (nonlinear); kept out of
+        # the branch-feasibility solver unless the condition mentions them
+        self.side = []
 
     # ---- variables -------------------------------------------------------
     def real(self, name, nan=False, inf=False):
@@ -141,6 +149,8 @@ class Ctx:
             assert ent[0] == 'b', 'non-deterministic harness (decision kind)'
             taken = ent[1]
             self.pos += 1
+            for c in self._side_for(cond):
+                self.solver.add(c)
             self.solver.add(cond if taken else z3.Not(cond))
             return taken
         if self.lazy:
@@ -149,6 +159,9 @@ class Ctx:
             self.solver.add(cond)
             return True
         self.stats.branch_checks += 2
+        side = self._side_for(cond)
+        for c in side:      # the decision depends on them: persist
+            self.solver.add(c)
         rt = self._check(cond)
         rf = self._check(z3.Not(cond))
         if rt == z3.unknown or rf == z3.unknown:
@@ -162,6 +175,31 @@ class Ctx:
         self.pos += 1
         self.solver.add(cond if taken else z3.Not(cond))
         return taken
+
+    def _side_for(self, cond):
+        """side constraints relevant to a term (transitively)."""
+        if not self.side:
+            return []
+        txt = None
+        out = []
+        need = [cond]
+        used = set()
+        while need:
+            t = need.pop()
+            txt = str(t)
+            for k, (v, c) in enumerate(self.side):
+                if k not in used and str(v) in txt:
+                    used.add(k)
+                    out.append(c)
+                    need.append(c)
+        return out
+
+    def radicand(self, t):
+        """If t is a sqrt variable, the term it is the square root of."""
+        for v, c in self.side:
+            if v.eq(t):
+                return c.arg(1).arg(1).arg(1)
+        return None
 
     def concretize(self, e):
         """All-SAT concretisation of an Int term."""
@@ -206,7 +244,7 @@ class Ctx:
         if z3.is_false(neg):
             self.stats.unsat += 1
             return 'unsat', None
-        r = self._check(neg)
+        r = self._check(neg, *self._side_for(neg))
         if r == z3.unsat:
             self.stats.unsat += 1
             return 'unsat', None
@@ -360,6 +398,65 @@ def _lift(v):
     if isinstance(v, np.ndarray) and v.ndim == 0:
         return _lift(v.item())
     return None
+
+
+def _syn_nonneg(e, depth=0):
+    """Cheap syntactic proof that a real term is >= 0."""
+    if depth > 40:
+        return False
+    if z3.is_rational_value(e):
+        return e.numerator_as_long() >= 0
+    if z3.is_int_value(e):
+        return e.as_long() >= 0
+    k = e.decl().kind()
+    ch = e.children()
+    if k == z3.Z3_OP_ADD:
+        return all(_syn_nonneg(c, depth + 1) for c in ch)
+    if k == z3.Z3_OP_MUL:
+        rest = list(ch)
+        # pair up syntactically equal factors
+        i = 0
+        while i < len(rest):
+            j = next((j for j in range(i + 1, len(rest))
+                      if rest[j].eq(rest[i])), None)
+            if j is not None:
+                del rest[j]
+                del rest[i]
+            else:
+                i += 1
+        return all(_syn_nonneg(c, depth + 1) for c in rest)
+    if k == z3.Z3_OP_POWER:
+        if z3.is_int_value(ch[1]) or z3.is_rational_value(ch[1]):
+            try:
+                n = ch[1].as_long()
+                if n % 2 == 0:
+                    return True
+            except Exception:  # noqa
+                pass
+        return False
+    if k == z3.Z3_OP_ITE:
+        c, a, b = ch
+        # abs pattern: If(x >= 0, x, -x)
+        return (_syn_nonneg(a, depth + 1) and _syn_nonneg(b, depth + 1)) \
+            or _is_abs(e)
+    if k == z3.Z3_OP_DIV:
+        return _syn_nonneg(ch[0], depth + 1) and z3.is_rational_value(
+            ch[1]) and ch[1].numerator_as_long() > 0
+    if k == z3.Z3_OP_TO_REAL:
+        return _syn_nonneg(ch[0], depth + 1)
+    return False
+
+
+def _is_abs(e):
+    c, a, b = e.children()
+    try:
+        if c.decl().kind() == z3.Z3_OP_GE and z3.is_rational_value(
+                c.children()[1]) and c.children()[1].numerator_as_long() == 0:
+            x = c.children()[0]
+            return a.eq(x) and z3.simplify(b + x).eq(z3.RealVal(0))
+    except Exception:  # noqa
+        pass
+    return False
 
 
 def const(v):
@@ -538,14 +635,15 @@ class SymReal:
 
     def sqrt(self):
         ctx = Ctx.cur
-        # negative radicand -> NaN
+        # negative radicand -> NaN (skip the fork when the radicand is
+        # syntactically a sum of squares / non-negative products)
         neg = z3.simplify(self.e < 0)
-        if not z3.is_false(neg) and ctx.decide(
+        if not z3.is_false(neg) and not _syn_nonneg(self.e) and ctx.decide(
                 z3.And(z3.Not(_nanz(self.nan)), neg)):
             return SymReal(z3.RealVal(0), True)
         s = ctx.fresh('sqrt')
-        ctx.solver.add(z3.Implies(z3.Not(_nanz(self.nan)),
-                                  z3.And(s >= 0, s * s == self.e)))
+        ctx.side.append((s, z3.Implies(z3.Not(_nanz(self.nan)),
+                                       z3.And(s >= 0, s * s == self.e))))
         return SymReal(s, self.nan)
 
     def floor(self):
@@ -681,8 +779,12 @@ class SymArray(np.ndarray):
             return self.copy()
         return super().astype(dtype, *a, **k)
 
-    def __setitem__(self, key, val):
-        super().__setitem__(key, val)
+    def __array_wrap__(self, obj, context=None, return_scalar=False):
+        # reductions of an ndarray subclass come back as 0-d arrays of the
+        # subclass; unwrap them to the element like plain object arrays do
+        if obj.ndim == 0 and obj.dtype == object:
+            return obj[()]
+        return super().__array_wrap__(obj, context, return_scalar)
 
 
 def symarray(ctx, name, shape, nan=False, inf=False):
@@ -726,6 +828,13 @@ def same(a, b):
     be, bn = _lift(b)
     an, bn = _nanz(an), _nanz(bn)
     return z3.And(an == bn, z3.Or(an, ae == be))
+
+
+def poly_equal(a, b):
+    """True if a - b simplifies to 0 as a polynomial (sum-of-monomials
+    normal form); sound but incomplete (False = not shown)."""
+    d = z3.simplify(a - b, som=True, mul_to_power=True, flat=True)
+    return z3.is_rational_value(d) and d.numerator_as_long() == 0
 
 
 def zsum(terms):
